@@ -138,6 +138,16 @@ func load(spec famSpec) *family {
 			r := f15.NewRunner(s)
 			return runner{func(i int) { r.Run(&cs[i]) }, r.Finish}
 		}}
+	case "f15s": // parsed QoS values shared by all goroutines, which only read them (projection, MarshalBinary)
+		cs := f15.Load(spec.Cases)
+		shared := make([]*f15.SharedObj, len(cs))
+		for i := range cs {
+			shared[i] = f15.Share(&cs[i])
+		}
+		return &family{"f15s", len(cs), func(s *sink, g, n int) runner {
+			r := f15.NewRunner(s)
+			return runner{func(i int) { r.RunShared(shared[i]) }, r.Finish}
+		}}
 	case "f16":
 		cs := f16.Load(spec.Cases)
 		return &family{"f16", len(cs), func(s *sink, g, n int) runner {
